@@ -497,12 +497,22 @@ class Engine:
             r = hook(self, fr, node)
             if r is not None:
                 return r
+        if all(isinstance(v, ast.Constant) for v in node.values):
+            return mk_str("".join(str(v.value) for v in node.values))
         parts = []
         for v in node.values:
             if isinstance(v, ast.Constant):
                 parts.append(self.as_V(mk_str(v.value)))
+            elif v.format_spec is not None or v.conversion != -1:
+                # format(value, spec): a string determined by the value and the (possibly computed) format specification
+                spec = self.as_V(self.ev(v.format_spec, fr)) if v.format_spec is not None else T.VStr(z3.StringVal(""))
+                if v.conversion != -1:
+                    spec = z3.Function("fconv", V, z3.IntSort(), V)(spec, z3.IntVal(v.conversion))
+                parts.append(z3.Function("fmtspec", V, V, V)(self.as_V(self.ev(v.value, fr)), spec))
             else:
                 parts.append(self.as_V(self.ev(v.value, fr)))
+        if len(parts) == 1 and z3.is_app(parts[0]) and parts[0].decl().name() == "fmtspec":
+            return mk_V(parts[0])      # f"{x:spec}" is format(x, spec)
         f = z3.Function(f"fstr_{len(parts)}", *([V] * len(parts)), V)
         return mk_V(f(*parts)) if parts else mk_str("")
 
@@ -628,6 +638,11 @@ class Engine:
         if isinstance(op, ast.Div):
             ta = z3.ToReal(ta) if ka == "int" else ta
             tb = z3.ToReal(tb) if kb == "int" else tb
+            hook = self.reg.spec.get("__div__")
+            if hook:
+                r = hook(self, fr, ta, tb)
+                if r is not None:
+                    return r
             self.div_guard(tb, fr, node)
             return mk_real(ta / tb)
         if isinstance(op, ast.Pow):
